@@ -8,7 +8,7 @@ DECIDES = ('for insert_knot x {curve, surface u/v, volume u/v/w}: every per-dire
            'sizes are passed in (u, v, w) order (LY3); every mutation is dominated by the false outcome of `check_num and num[k] > degree_k - s_k` '
            'with s_k = find_multiplicity(param[k], knotvector_k), exact strict inequality (GD2); the net is replaced before the knot vector; '
            'the object wrappers fill the (u, v, w) parameter/count lists from the matching keywords, mutate nothing before delegating and catch '
-           'only the rejection (WR1). A5.1's input rows are never mutated and cells of its in-place-updated work array leave it only as deep copies (PU1, AL1).')
+           'only the rejection (WR1). the input rows of A5.1 are never mutated and cells of its in-place-updated work array leave it only as deep copies (PU1, AL1).')
 NOT_DECIDED = 'that evaluated points are unchanged; the A5.1 blending arithmetic and alpha values; sortedness of the new knot vector (numerical/algorithmic, helpers.knot_insertion*).'
 TECHNIQUE = 'axis-tag dataflow, stride rule in polynomial normal form, CFG dominance of guards, structural gather/scatter rules'
 
